@@ -104,7 +104,11 @@ def mutate(rng, b, n):
 
 def amplifier(rng):
     """Structures aimed at the fixed-size buffers and look-behind/ahead sites found while reading."""
-    k = rng.randrange(16)
+    k = rng.randrange(17)
+    if k == 16:     # runs that are counted: a run of pipes is one cell spanning that many columns, counted in the writers' per-row counters
+        n = rng.choice([255, 256, 32766, 32767, 32768, 32769, 40000, 65535, 65536, 70000])
+        head = rng.choice([b'a|b|c\n-|-|-\n', b'| a | b |\n|:-:|--:|\n', b'|a|\n|-|\n'])
+        return head + b'x' + b'|' * n + rng.choice([b'y|z|w\n', b'\n', b'y', b' |\n'])
     if k == 0:      # wide tables around kMaxTableColumns
         n = rng.choice([47, 48, 49, 50, 64, 100, 130])
         row = b'|' + b'|'.join(b'c%d' % i for i in range(n)) + b'|\n'
@@ -118,6 +122,10 @@ def amplifier(rng):
     if k == 2:      # long urls / labels
         n = rng.choice([99, 100, 101, 127, 128, 129, 200, 255, 256, 257, 300, 500, 507, 508, 511, 512, 513, 600, 800, 990, 995, 996, 999, 1000, 1001, 1023, 1024, 1100, 1101, 2000, 4095, 4096, 5000])
         u = b'u' * n
+        if rng.random() < 0.3:
+            # keys of the search tables (abbreviations and glossary terms go into a trie whose work buffers are sized by node count)
+            form = rng.choice([b'[>%s]: Expansion\n\ntext %s here\n', b'[?%s]: Definition\n\nterm [?%s] here\n', b'[#%s]: Cite\n\ncite [#%s]\n', b'[>(%s) Expansion inline] and %s\n'])
+            return form % (u, u)
         return rng.choice([b'![a](%s.png)\n', b'[a](%s)\n', b'[a]: %s\n\n[a]\n', b'{{%s}}\n', b'<http://%s>\n', b'# %s #\n', b'[^%s]\n', b'x: %s\n\nb\n']) % u
     if k == 3:      # empty labels and bracket forms without parens
         return rng.choice([b'[]\n', b'[][]\n', b'![]\n', b'[^]\n', b'[#]\n', b'[?]\n', b'[>]\n', b'[%]\n', b'[]()\n', b'![]()\n', b'[](', b'[a](',
